@@ -382,6 +382,12 @@ Proper(n) == /\ ~Dup(n.kids)
 ProperTrees == Clean => \A m \in Mods : Proper(trees[m])
 \* C07: a grafted node and its descendants carry the augmenting module's namespace:
 \* checked through Flat on the harness side and by Attribution in MCSchema's spaces
+\* C08: a node that no deviation targets is what the same modules yield without the deviations
+DevTargetPaths == {<<PathModule(P, m, d.arg), StepNames(d.arg)>> : m \in All, d \in UNION {ToSet(Deviations(P, mm)) : mm \in All}}
+Targeted(m, p) == \E t \in DevTargetPaths : t[1] = m /\ Len(t[2]) <= Len(p) /\ SubSeq(p, 1, Len(t[2])) = t[2]
+Frame == Clean => \A m \in Mods :
+            LET before == FlatOf(CanonFixed.T[m], <<>>, P[m].ns, FALSE, TRUE) IN
+            {f \in Flat(m) : ~Targeted(m, f.p)} = {f \in before : ~Targeted(m, f.p)}
 Termination == <>(pc = "done")
 
 Export == pc # "done" \/ PrintT(<<"CASE", ToJson([prog |-> prog, errs |-> errs,
